@@ -167,7 +167,7 @@ func (p *poller) addDialer(c *Conn) error {
 	// write interest armed and nothing to flush, the level-triggered loop would
 	// spin on a writable socket, and the one-shot re-arm would drop the interest
 	// but leave isWAdded set, so that a later backlog never arms it again.
-	c.isWAdded = c.onConnected != nil
+	c.isWAdded = c.dialPending
 	var err error
 	if c.isWAdded {
 		err = p.addReadWrite(fd)
